@@ -48,7 +48,7 @@ MANIFEST = {
     "translator and generators (sampling).  Phantom struct parameters make the literal iff false (harmless direction): known finding.",
     "technique": "Lean 4 proof over a hand-written model with a regenerated definition table + differential correspondence + lowering probes",
     "design_ref": "DESIGN.md §5 C14",
-    "ready": False,
+    "ready": True,
 }
 
 GEN_PATH = os.path.join(vlib.LEAN, "GuppyVerif", "Gen", "C14TypeDefs.lean")
@@ -440,16 +440,52 @@ def _fixed_cases():
     return out
 
 
+def _types_from_annotations(items):
+    """real types from annotation strings (corpus / replay): parsed by the REAL type parser through the
+    signature of `def p<generics>(x: <annotation>) -> None`"""
+    import feed
+    import tysexp
+    from guppylang_internals.engine import ENGINE
+    tysexp.env()  # the struct definitions live in module _verif_tyenv
+    out = []
+    for i, it in enumerate(items):
+        ann, gen = it["annotation"], it.get("generics", "")
+        src = f"@guppy.declare\ndef p{gen}(x: {ann}) -> None: ...\n"
+        try:
+            m = feed.load(src, prelude=feed.PRELUDE + PROBE_PRELUDE)
+            out.append((f"corpus:{ann}", ENGINE.get_parsed(m.p.id).ty.inputs[0].ty))
+        except Exception:  # noqa: BLE001
+            continue
+    return out
+
+
+def _corpus_items(ctx):
+    items = []
+    d = os.path.join(vlib.VERIF, "corpus", "c14")
+    if os.path.isdir(d):
+        for fn in sorted(os.listdir(d)):
+            if fn.endswith(".json"):
+                items += json.load(open(os.path.join(d, fn)))["types"]
+    if ctx.replay_in:
+        r = ctx.replay_in.get("replay", {})
+        for k in ("witness", "type", "annotation"):
+            if isinstance(r.get(k), str):
+                items.append({"annotation": r[k]})
+    return items
+
+
 def _cases(ctx):
     import tysexp
     rng = ctx.rng
-    cases = [(f"fixed:{k}", t) for k, t in _fixed_cases().items()]
+    cases = _types_from_annotations(_corpus_items(ctx))
+    ctx.extra["corpus_types"] = len(cases)
+    cases += [(f"fixed:{k}", t) for k, t in _fixed_cases().items()]
     n = ctx.n(1500, 60000)
     for i in range(n):
         g0 = tysexp.TyGen(rng)
         params = g0.gen_params(rng.choice([0, 0, 1, 2, 3]), dependent=False, comptime=False)
         g = tysexp.TyGen(rng, params, kinded=True, evars=rng.random() < 0.15)
-        cases.append((f"rand:{i}", g.gen(rng.choice([1, 2, 3, 3, 4]))))
+        cases.append((f"rand:{i}", g.gen(rng.choice([2, 3, 3, 4, 4]))))
     return cases
 
 
@@ -465,8 +501,6 @@ def tie(ctx):
     import tysexp
     orc = Oracle()
     cases = _cases(ctx)
-    if ctx.replay_in and "type_sexp" in ctx.replay_in.get("replay", {}):
-        pass  # replays are re-derived from the corpus/seed; the sexp is kept for the record
     lines, keep = [], []
     for name, t in cases:
         try:
@@ -540,6 +574,46 @@ def tie(ctx):
             ctx.violation("fields:" + s, f"StructType.fields of `{str(t)}` is not the definition's fields with the arguments substituted",
                           {"type": str(t), "type_sexp": s, "real": real, "oracle": o})
     probes(ctx)
+
+
+def search(ctx, why):
+    """Something no longer checks (theorem build or correspondence) and the tie found no concrete failing
+    input: look harder (more and deeper random types against the structural oracle on the REAL code); if
+    still nothing, report the break itself (vlib would otherwise stay silent when only known findings
+    were reproduced)."""
+    import tysexp
+    orc = Oracle()
+    rng = ctx.rng
+    for i in range(ctx.n(3000, 20000)):
+        g0 = tysexp.TyGen(rng)
+        params = g0.gen_params(rng.choice([0, 1, 2]), dependent=False, comptime=False)
+        t = tysexp.TyGen(rng, params, kinded=True).gen(rng.choice([2, 3, 4, 5]))
+        try:
+            bad = None
+            if t.copyable != orc.flag(t, True):
+                bad = ("copyable", lambda x: _safe(lambda: x.copyable != orc.flag(x, True)))
+            elif t.droppable != orc.flag(t, False):
+                bad = ("droppable", lambda x: _safe(lambda: x.droppable != orc.flag(x, False)))
+            else:
+                h = t.to_hugr(_cctx())
+                cp, dr = orc.flag(t, True), orc.flag(t, False)
+                if (_bnd(h.type_bound()) == "C") != cp:
+                    bad = ("bound", lambda x: _safe(lambda: (_bnd(x.to_hugr(_cctx()).type_bound()) == "C") != orc.flag(x, True)))
+                elif dr and not cp and not _rd(t):
+                    bad = ("drop", lambda x: _safe(lambda: orc.flag(x, False) and not orc.flag(x, True) and not _rd(x)))
+                elif cp and _rd(t):
+                    bad = ("nodrop", lambda x: _safe(lambda: orc.flag(x, True) and _rd(x)))
+        except Exception:  # noqa: BLE001
+            continue
+        if bad:
+            w = _shrink(t, bad[1], orc)
+            ctx.violation(f"{bad[0]}:{str(w)}", f"search after `{why[0][:80]}`: {bad[0]} rule fails — minimal witness `{str(w)}`",
+                          {"type": str(t), "witness": str(w), "witness_sexp": tysexp.ty_sexp(w)})
+    if not any(v["found"] for v in ctx.violations):
+        ctx.violation("broken:" + "|".join(why)[:300],
+                      "proof obligation or correspondence no longer checks: " + "; ".join(why)[:1500],
+                      {"broken": why, "build_log_tail": ctx.build_log[-3000:] if not ctx.build_ok else ""},
+                      found_input=False)
 
 
 def _safe(f):
